@@ -985,6 +985,40 @@ func ruleOwnership(r *Run, p string, k *storeKind) {
 			v, _ = constant.Int64Val(fl.Value)
 		}
 		r.Check(ok && excl != 0 && v&excl != 0 && v&creat != 0, p+".EXCL", "lock:flags", w.InstrPos(open)+" "+w.Name(acq), fmt.Sprintf("lock file opened with O_CREATE|O_EXCL (flags %#x)", v), fmt.Sprintf("lock file flags %#x lack O_CREATE|O_EXCL: acquisition is not atomic", v))
+		// the acquisition never removes a lock file this call did not create: every os.Remove in it lies on the success side
+		// of an exclusive create (cleanup after a failed write of the owner record). Removing the file on the "already
+		// exists" side — however stale the lock looks — lets two openers own the directory
+		for _, rm := range callsTo(acq, "os.Remove") {
+			own := false
+			for _, op := range callsTo(acq, "os.OpenFile") {
+				for _, ref := range *op.Referrers() {
+					ex, ok := ref.(*ssa.Extract)
+					if !ok || ex.Index != 1 {
+						continue
+					}
+					for _, r2 := range *ex.Referrers() {
+						bo, ok := r2.(*ssa.BinOp)
+						if !ok || (bo.Op != token.NEQ && bo.Op != token.EQL) {
+							continue
+						}
+						for _, r3 := range *bo.Referrers() {
+							iff, ok := r3.(*ssa.If)
+							if !ok {
+								continue
+							}
+							succ := iff.Block().Succs[1] // err == nil side of `err != nil`
+							if bo.Op == token.EQL {
+								succ = iff.Block().Succs[0]
+							}
+							if succ == rm.Block() || succ.Dominates(rm.Block()) {
+								own = true
+							}
+						}
+					}
+				}
+			}
+			r.Check(own, p+".EXCL", "lock:removes-only-own", w.InstrPos(rm)+" "+w.Name(acq), "the lock file is removed only after this call created it", "the acquisition removes a lock file it did not create (takeover): the previous owner may still be alive, or just about to write its record")
+		}
 		c := NewCanon(w)
 		r.Check(strings.Contains(c.S(open.Call.Args[0]), "P0.baseDir"), p+".EXCL", "lock:path", w.InstrPos(open)+" "+w.Name(acq), "the lock file lives in the store directory", "lock path is "+c.S(open.Call.Args[0]))
 		// no read-then-create: nothing opens / stats the lock path before
